@@ -51,6 +51,18 @@ def distance_fn(sh):
     return None
 
 
+TRACER = None
+
+
+def traced(f, *a):
+    """only the predicate under test runs under the line tracer (tracing numba's compiler or the
+    distance functions would cost minutes)"""
+    if TRACER is None:
+        return f(*a)
+    with TRACER:
+        return f(*a)
+
+
 def run_case(case):
     out = {}
     sh = case["shape"]
@@ -63,7 +75,7 @@ def run_case(case):
         out["build_msg"] = str(e)[:300]
         return out
     try:
-        res = predicate(sh, case["points"])
+        res = traced(predicate, sh, case["points"])
         res = np.asarray(res)
         if res.shape != (len(case["points"]),) or res.dtype != np.bool_:
             raise AssertionError(f"result shape {res.shape} dtype {res.dtype}")
@@ -93,9 +105,10 @@ def run_case(case):
 
 def main():
     payload = json.load(open(sys.argv[1]))
+    global TRACER
     tracer = st.LineTracer([ct.__file__])
-    with tracer:
-        res = [run_case(c) for c in payload["cases"]]
+    TRACER = tracer
+    res = [run_case(c) for c in payload["cases"]]
     hits = {k.split("/")[-1]: v for k, v in tracer.result().items()}
     json.dump(dict(results=res, line_hits=hits), open(sys.argv[2], "w"))
 
